@@ -79,6 +79,20 @@ class _Canon(ast.NodeTransformer):
             e = v.value
             mk = lambda x: ast.copy_location(ast.Expr(value=ast.copy_location(ast.Yield(value=x), v)), node)
             return ast.copy_location(ast.If(test=e.test, body=[mk(e.body)], orelse=[mk(e.orelse)]), node)
+        # `L.extend(E for x in S if C)` / `L.extend([E for x in S if C])`  ->  for x in S: if C: L.append(E)   (L a plain name or
+        # self.attr, evaluated once either way; one generator only, so the order of evaluation is the same)
+        if isinstance(v, ast.Call) and isinstance(v.func, ast.Attribute) and v.func.attr == 'extend' and len(v.args) == 1 and \
+                not v.keywords and isinstance(v.args[0], (ast.GeneratorExp, ast.ListComp)) and len(v.args[0].generators) == 1 and \
+                not v.args[0].generators[0].is_async and \
+                (isinstance(v.func.value, ast.Name) or (isinstance(v.func.value, ast.Attribute) and isinstance(v.func.value.value, ast.Name))):
+            ge = v.args[0]
+            g = ge.generators[0]
+            app = ast.copy_location(ast.Expr(value=ast.copy_location(ast.Call(
+                func=ast.Attribute(value=v.func.value, attr='append', ctx=ast.Load()), args=[ge.elt], keywords=[]), v)), node)
+            body = [app]
+            for c in reversed(g.ifs):
+                body = [ast.copy_location(ast.If(test=c, body=body, orelse=[]), node)]
+            return ast.copy_location(ast.For(target=g.target, iter=g.iter, body=body, orelse=[], type_comment=None), node)
         # `yield from (E for x in S if C)`  ->  for x in S: if C: yield E     (same order of evaluation; the only difference, the
         # private scope of the comprehension variable, is invisible unless the function reads that name afterwards)
         if isinstance(v, ast.YieldFrom) and isinstance(v.value, ast.GeneratorExp) and \
@@ -485,6 +499,228 @@ class Inliner:
         return '_ret__i%d' % self.counter
 
 
+def _literal_pairs_table(ctx, fi, it):
+    """The literal tuple / list of pairs a loop iterates: a module constant (Name) or a class attribute (self.X / cls.X / C.X)."""
+    table = None
+    if isinstance(it, ast.Name):
+        for st in fi.module.tree.body:
+            if isinstance(st, ast.Assign) and len(st.targets) == 1 and isinstance(st.targets[0], ast.Name) and st.targets[0].id == it.id:
+                table = st.value
+    elif isinstance(it, ast.Attribute) and isinstance(it.value, ast.Name):
+        cls = fi.cls
+        f = fi
+        while cls is None and f is not None and isinstance(getattr(f, 'parent', None), FuncInfo):
+            f = f.parent
+            cls = f.cls
+        if cls is not None:
+            try:
+                _k, table = ctx.res.lookup_class_attr(cls, it.attr)
+            except Exception:
+                table = None
+    if isinstance(table, (ast.Tuple, ast.List)) and table.elts and \
+            all(isinstance(e, (ast.Tuple, ast.List)) and len(e.elts) == 2 for e in table.elts):
+        return table
+    return None
+
+
+class _SubstNames(ast.NodeTransformer):
+    def __init__(self, env):
+        self.env = env
+
+    def visit_Name(self, n):
+        if isinstance(n.ctx, ast.Load) and n.id in self.env:
+            return clone(self.env[n.id])
+        return n
+
+
+def unroll_table_dispatch(ctx, fi, stmts):
+    """`for a, b in TABLE: if <test on a, b>: <body ending in return / break>` over a literal table of pairs (first match wins)
+    is the if / elif chain written in table order: the loop is replaced by that chain, with a and b replaced by the entries.  The
+    rules that read chains of isinstance tests (tag tables, isinstance order, dispatch) then see one spelling."""
+    out = []
+    for st in stmts:
+        for fld in ('body', 'orelse', 'finalbody'):
+            b = getattr(st, fld, None)
+            if isinstance(b, list) and b and isinstance(b[0], ast.stmt):
+                setattr(st, fld, unroll_table_dispatch(ctx, fi, b))
+        if isinstance(st, ast.Try):
+            for h in st.handlers:
+                h.body = unroll_table_dispatch(ctx, fi, h.body)
+        if isinstance(st, ast.For) and isinstance(st.target, ast.Tuple) and len(st.target.elts) == 2 and \
+                all(isinstance(t, ast.Name) for t in st.target.elts) and len(st.body) == 1 and isinstance(st.body[0], ast.If) \
+                and not st.body[0].orelse and st.body[0].body and isinstance(st.body[0].body[-1], (ast.Return, ast.Break)):
+            table = _literal_pairs_table(ctx, fi, st.iter)
+            a, b = st.target.elts[0].id, st.target.elts[1].id
+            stores = {n.id for n in ast.walk(st.body[0]) if isinstance(n, ast.Name) and isinstance(n.ctx, ast.Store)}
+            if table is not None and not ({a, b} & stores):
+                chain = None
+                ends_break = isinstance(st.body[0].body[-1], ast.Break)
+                tail = list(st.orelse) if ends_break else []
+                for e in reversed(table.elts):
+                    env = {a: e.elts[0], b: e.elts[1]}
+                    test = _SubstNames(env).visit(clone(st.body[0].test))
+                    body = [_SubstNames(env).visit(clone(x)) for x in st.body[0].body]
+                    if ends_break:
+                        body = body[:-1] or [ast.Pass()]
+                    node = ast.If(test=test, body=body, orelse=[chain] if chain is not None else tail)
+                    chain = ast.copy_location(node, st)
+                out.append(chain)
+                if not ends_break:
+                    out.extend(st.orelse)
+                continue
+        out.append(st)
+    return out
+
+
+# names the rules themselves look up inside function bodies (they are constants of the library today; a rule that reads them by name
+# keeps reading them by name)
+_KEEP = {'dataflows.helpers.extended_json': lambda nm: nm.endswith('_FORMAT'),
+         'dataflows.processors.stream': lambda nm: nm == 'ACTIVE_SUFFIX'}
+
+
+def _literal(v):
+    if isinstance(v, ast.Constant):
+        return True
+    if isinstance(v, (ast.Tuple, ast.List)):
+        return all(_literal(e) for e in v.elts)
+    if isinstance(v, ast.UnaryOp) and isinstance(v.op, ast.USub) and isinstance(v.operand, ast.Constant):
+        return True
+    return False
+
+
+def module_literals(module):
+    """name -> literal expression, for module-level names bound exactly once, directly in the module body, to a literal (or to
+    another such name)."""
+    cache = module.__dict__.setdefault('_literals', None)
+    if cache is not None:
+        return cache
+    raw = {}
+    for nm, defs in module.defs.items():
+        if len(defs) != 1 or not isinstance(defs[0], tuple) or defs[0][0] != 'assign':
+            continue
+        val, st = defs[0][1], defs[0][2]
+        if getattr(st, '_parent', None) is not module.tree or nm.startswith('__') or _KEEP.get(module.name, lambda _n: False)(nm):
+            continue
+        if isinstance(st, ast.Assign) and (len(st.targets) != 1 or not isinstance(st.targets[0], ast.Name)):
+            continue
+        raw[nm] = val
+    out = {}
+    for nm, val in raw.items():
+        v, hops = val, 0
+        while isinstance(v, ast.Name) and v.id in raw and hops < 4:
+            v, hops = raw[v.id], hops + 1
+        if _literal(v):
+            out[nm] = v
+    # a name that some function declares global / rebinds is not a constant
+    for n in ast.walk(module.tree):
+        if isinstance(n, ast.Global):
+            for g in n.names:
+                out.pop(g, None)
+    module._literals = out
+    return out
+
+
+def fold_module_constants(ctx, fi, node):
+    """Replace, in the copy `node` of function fi, loads of module-level literal constants by the literal (unless a local or an
+    enclosing function's local of that name hides it): `mode == MODE_REWRITE` reads `mode == 'rewrite'` again."""
+    lits = module_literals(fi.module)
+    if not lits:
+        return node
+    hidden = set()
+    f = fi
+    while f is not None:
+        try:
+            hidden |= set(ctx.res.local_bindings(f))
+        except Exception:
+            pass
+        f = f.parent if isinstance(f.parent, FuncInfo) else None
+    for n in ast.walk(node):
+        if isinstance(n, ast.Name) and isinstance(n.ctx, ast.Store):
+            hidden.add(n.id)
+        elif isinstance(n, ast.arg):
+            hidden.add(n.arg)
+
+    class T(ast.NodeTransformer):
+        def visit_Name(self, n):
+            if isinstance(n.ctx, ast.Load) and n.id in lits and n.id not in hidden:
+                return ast.copy_location(clone(lits[n.id]), n)
+            return n
+    return T().visit(node)
+
+
+def _pure_test(e):
+    """A comparison / boolean combination over plain names and literals only (no calls, attributes, subscripts)."""
+    ok_types = (ast.Name, ast.Constant, ast.Compare, ast.BoolOp, ast.UnaryOp, ast.Not, ast.And, ast.Or, ast.Load, ast.Tuple, ast.List,
+                ast.Eq, ast.NotEq, ast.Is, ast.IsNot, ast.In, ast.NotIn, ast.Lt, ast.LtE, ast.Gt, ast.GtE)
+    if not isinstance(e, (ast.Compare, ast.BoolOp)) and not (isinstance(e, ast.UnaryOp) and isinstance(e.op, ast.Not)):
+        return False
+    return all(isinstance(n, ok_types) for n in ast.walk(e))
+
+
+def _scope_stores(fnode):
+    """name -> [store nodes] in the function's own body (nested functions excluded; their `nonlocal` names are reported apart)."""
+    stores, nonlocal_ = {}, set()
+    for n in own_nodes(fnode):
+        if isinstance(n, ast.Name) and isinstance(n.ctx, ast.Store):
+            stores.setdefault(n.id, []).append(n)
+        elif isinstance(n, ast.arg):
+            pass
+    for n in ast.walk(fnode):
+        if isinstance(n, (ast.Nonlocal, ast.Global)):
+            nonlocal_ |= set(n.names)
+    return stores, nonlocal_
+
+
+def _flags_of(fnode):
+    """Flag locals of one function: names stored exactly once, by `name = <pure test>`, whose operand names are not stored again
+    after that statement (and never through nonlocal): the flag always equals the test it was assigned from."""
+    stores, nonlocal_ = _scope_stores(fnode)
+    params = {a.arg for a in fnode.args.posonlyargs + fnode.args.args + fnode.args.kwonlyargs} if hasattr(fnode, 'args') else set()
+    out = {}
+    for n in own_nodes(fnode):
+        if isinstance(n, ast.Assign) and len(n.targets) == 1 and isinstance(n.targets[0], ast.Name) and _pure_test(n.value):
+            nm = n.targets[0].id
+            if len(stores.get(nm, [])) != 1 or nm in nonlocal_ or nm in params:
+                continue
+            ok = True
+            for o in ast.walk(n.value):
+                if isinstance(o, ast.Name):
+                    if o.id in nonlocal_ or o.id == nm:
+                        ok = False
+                    for st in stores.get(o.id, []):
+                        if getattr(st, 'lineno', 0) > n.lineno or (getattr(st, 'lineno', 0) == n.lineno and st is not n.targets[0]):
+                            # re-stored later - unless both sit in the same loop body and the store comes first in it (recomputed
+                            # together on every iteration): handled by requiring the store not to follow the flag textually
+                            ok = False
+            if ok:
+                out[nm] = n.value
+    return out
+
+
+def fold_flags(ctx, fi, node):
+    """Replace loads of flag locals (of the function itself and of the functions enclosing it) by the test they stand for:
+    `inner_join = mode == 'inner'` ... `if inner_join:` reads `if mode == 'inner':` again."""
+    env = dict(_flags_of(node))
+    own_bound = {n.id for n in ast.walk(node) if isinstance(n, ast.Name) and isinstance(n.ctx, ast.Store)} | \
+        {a.arg for a in ast.walk(node) if isinstance(a, ast.arg)}
+    f = fi.parent if isinstance(fi.parent, FuncInfo) else None
+    while f is not None:
+        if not isinstance(f.node, ast.Lambda):
+            for nm, v in _flags_of(f.node).items():
+                if nm not in own_bound and nm not in env and not ({x.id for x in ast.walk(v) if isinstance(x, ast.Name)} & own_bound):
+                    env[nm] = v
+        f = f.parent if isinstance(f.parent, FuncInfo) else None
+    if not env:
+        return node
+
+    class T(ast.NodeTransformer):
+        def visit_Name(self, n):
+            if isinstance(n.ctx, ast.Load) and n.id in env:
+                return ast.copy_location(clone(env[n.id]), n)
+            return n
+    return T().visit(node)
+
+
 def normalized(ctx, fi, depth=2, do_canon=True, keep=()):
     """A FuncInfo whose node is a normalised deep copy of fi.node (helpers inlined, canonical spellings)."""
     cache = ctx.__dict__.setdefault('_norm_cache', {})
@@ -507,8 +743,12 @@ def normalized(ctx, fi, depth=2, do_canon=True, keep=()):
 
     class _CallerProxy:
         pass
+    node.body = unroll_table_dispatch(ctx, fi, node.body)
+    ast.fix_missing_locations(node)
     node.body = _inline_with_originals(ctx, inl, node.body, fi, orig_calls, depth)
     node = _inline_expression_helpers(ctx, inl, node, fi, orig_calls)
+    node = fold_module_constants(ctx, fi, node)
+    node = fold_flags(ctx, fi, node)
     if do_canon:
         node = canon(node)
     ast.fix_missing_locations(node)
@@ -530,6 +770,16 @@ def _inline_with_originals(ctx, inl, stmts, fi, orig_calls, depth):
         k = (getattr(call, 'lineno', None), getattr(call, 'col_offset', None), ast.dump(call.func))
         o = orig_calls.get(k)
         if o is None:
+            # a call synthesised by a rewrite (unrolled table dispatch): its callee is a plain module-level name
+            if isinstance(call.func, ast.Name) and not hasattr(call.func, '_parent'):
+                h = ctx.repo.functions.get('%s:%s' % (caller.module.name, call.func.id))
+                if h is not None and h.cls is None and h.parent is None:
+                    probe = ast.Call(func=ast.Name(id=call.func.id, ctx=ast.Load()), args=call.args, keywords=call.keywords)
+                    probe.func._parent = caller.module.tree
+                    try:
+                        return orig_helper_for(probe, caller)
+                    except Exception:
+                        return None
             return None
         return orig_helper_for(o, caller)
     inl.helper_for = helper_for
